@@ -77,6 +77,9 @@ func Templates() []Template {
 		{Name: "percent-list", Class: "percent-format-list-operand", Asp: map[string]string{"s": `"a-3"`}, PyErr: true, Build: Prog{
 			Assign("s", E(Str("%s-%d"), Bin("%", List(StrE("a"), IntE(3)))))}},
 
+		{Name: "percent-mismatch", Class: "percent-format-mismatch-no-error", Asp: map[string]string{"s": `"a%!(EXTRA asp.pyInt=1)"`}, PyErr: true, Build: Prog{
+			Assign("s", E(Str("a"), Bin("%", Int(1))))}},
+
 		// ---- raw text (constructs the AST does not cover) ----
 		{Name: "filter-nil", Class: "filter-empty-result-nil", Asp: map[string]string{"f": `"NIL-LIST"`}, Raw: "f = filter(lambda v: v > 5, [1, 2])\n"},
 		{Name: "range-truthy", Class: "range-always-truthy", Asp: map[string]string{"t": "1"}, Raw: "t = 1 if range(0) else 2\n"},
